@@ -15,11 +15,12 @@ RANK = {D: 0, U: 1, V: 2}
 
 
 class Ob:
-    __slots__ = ("rule", "construct", "verdict", "what", "line", "file", "nontrivial", "detail", "n")
+    __slots__ = ("rule", "construct", "verdict", "what", "line", "file", "nontrivial", "detail", "n", "soft")
 
-    def __init__(self, rule, construct, verdict, what, file=None, line=None, nontrivial=True, detail=""):
+    def __init__(self, rule, construct, verdict, what, file=None, line=None, nontrivial=True, detail="", soft=False):
         self.rule, self.construct, self.verdict, self.what = rule, construct, verdict, what
         self.file, self.line, self.nontrivial, self.detail, self.n = file, line, nontrivial, detail, 1
+        self.soft = soft      # found by query at whatever typed sinks the current code has: not part of the must-re-find baseline
 
     @property
     def key(self):
@@ -44,7 +45,7 @@ class Ctx:
         self.alias = {}        # rule-id renaming while a rule function of another property module is reused
 
     # ---- recording
-    def add(self, rule, construct, verdict, what, fn=None, line=None, nontrivial=True, detail=""):
+    def add(self, rule, construct, verdict, what, fn=None, line=None, nontrivial=True, detail="", soft=False):
         rule = self.alias.get(rule, rule)
         rule = self.prop + "." + rule if not rule.startswith("C") else rule
         file = None
@@ -55,7 +56,7 @@ class Ctx:
                 self.consulted.add(f.qual)
                 if line is None:
                     line = f.node.lineno
-        ob = Ob(rule, construct, verdict, what, file, line, nontrivial, detail)
+        ob = Ob(rule, construct, verdict, what, file, line, nontrivial, detail, soft)
         old = self.obs.get(ob.key)
         if old is None:
             self.obs[ob.key] = ob
@@ -66,13 +67,13 @@ class Ctx:
                 self.obs[ob.key] = ob
         return verdict == D
 
-    def check(self, rule, construct, cond, what, bad=None, fn=None, line=None, nontrivial=True, undecided=None):
+    def check(self, rule, construct, cond, what, bad=None, fn=None, line=None, nontrivial=True, undecided=None, soft=False):
         """cond True -> discharged; False -> violated (positively contradicted); None -> undecided"""
         if cond is True:
-            return self.add(rule, construct, D, what, fn, line, nontrivial)
+            return self.add(rule, construct, D, what, fn, line, nontrivial, soft=soft)
         if cond is False:
-            return self.add(rule, construct, V, bad or ("NOT: " + what), fn, line, nontrivial)
-        return self.add(rule, construct, U, undecided or ("cannot establish: " + what), fn, line, nontrivial)
+            return self.add(rule, construct, V, bad or ("NOT: " + what), fn, line, nontrivial, soft=soft)
+        return self.add(rule, construct, U, undecided or ("cannot establish: " + what), fn, line, nontrivial, soft=soft)
 
     def note(self, text):
         self.notes.append(text)
@@ -136,7 +137,8 @@ def run_property(prop, tier="quick", root="/repo/verde", overlay=None, write=Tru
         mins = base.get("min_per_rule", {})
         count = {}
         for o in obs:
-            count[o.rule] = count.get(o.rule, 0) + 1
+            if not o.soft:
+                count[o.rule] = count.get(o.rule, 0) + 1
         for r, n in mins.items():
             if count.get(r, 0) < n:
                 missing.append("%s: %d instances found, baseline confirms %d" % (r, count.get(r, 0), n))
@@ -168,6 +170,33 @@ def run_property(prop, tier="quick", root="/repo/verde", overlay=None, write=Tru
         lines.append("ANALYSIS-UNDECIDED property=%s %s at %s: %s" % (prop, o.rule, o.construct, o.what))
     for m in missing:
         lines.append("ANALYSIS-ERROR property=%s baseline obligation not re-found: %s" % (prop, m))
+    # thorough tier: self-validation of the rules on in-memory variants of the CURRENT source (DESIGN 3.10).  Only meaningful when
+    # the tree itself is clean - on a tree that already violates the property every variant inherits that violation.
+    if tier == "thorough" and ctx is not None and overlay is None:
+        if code == 0:
+            from . import mutate
+            res = mutate.run_corpus(prop, root=root, jobs=int(os.environ.get("VERIF_JOBS", "16")), seed=seed)
+            applied = [r for r in res if r["ok"] is not None]
+            wrong = [r for r in applied if r["ok"] is False]
+            killed = [r for r in applied if r["expect"] == "VIOLATED" and r["ok"]]
+            neutral = [r for r in applied if r["expect"] == "DISCHARGED" and r["ok"]]
+            rules_hit = sorted({h[0] for r in killed for h in r["reported"]})
+            constructs_hit = sorted({h[0] + " " + h[1] for r in killed for h in r["reported"]})
+            ctx.extra_coverage = dict(getattr(ctx, "extra_coverage", None) or {})
+            ctx.extra_coverage["kill_matrix"] = {
+                "variants_total": len(res), "variants_applied": len(applied), "anchor_absent": [r["name"] for r in res if r["ok"] is None],
+                "seeded_faults_reported": len(killed), "neutral_edits_silent": len(neutral), "wrong": [r["name"] for r in wrong],
+                "rules_with_a_killing_variant": rules_hit, "distinct_obligations_falsified": len(constructs_hit),
+                "entries": [{"variant": r["name"], "expected": r["expect"], "got": r["got"], "first_report": (r["reported"][0][0] + " " + r["reported"][0][1]) if r["reported"] else ""} for r in res],
+            }
+            for r in wrong:
+                kind = "insensitive rule (seeded fault not reported)" if r["expect"] == "VIOLATED" else "brittle rule (behaviour-preserving edit not accepted)"
+                lines.append("ANALYSIS-ERROR property=%s corpus variant '%s': expected %s, got %s - %s" % (prop, r["name"], r["expect"], r["got"], kind))
+            if wrong:
+                code = 2
+            lines.append("%s thorough: corpus %d variants (%d applied): %d seeded faults reported, %d neutral edits silent, %d wrong" % (prop, len(res), len(applied), len(killed), len(neutral), len(wrong)))
+        else:
+            lines.append("%s thorough: corpus self-validation skipped (the tree itself does not pass)" % prop)
     wall = time.time() - t0
     if ctx is not None and write:
         write_evidence(ctx, prop, tier, seed, obs, viol, knownhits, und, missing, err, wall, rules_mod)
